@@ -122,26 +122,55 @@ func verifC32ReadAll(r io.Reader) ([]byte, error) {
 //verif:stub time.Now = verifC32Now
 //verif:stub time.Since = verifC32Since
 //verif:stub context.WithCancel = verifC32WithCancel
-//verif:bound a resource of 4 distinct bytes fetched in chunks of 2 (2 range requests, up to 3 with a hedge) with parallelism 1 or 2 and hedging off or on (multiplier 1.0, at most 1 hedge); the origin answers the first request for each range with ANY of: 206 exact, 200 whole body, 206 one byte short, 500, transport failure — and every hedged request with one of exact / transport failure / whole body (thorough: ANY one of the five); ALL interleavings of the chunk goroutines at synchronisation points (channel, mutex, and a yield while each request is on the wire) with at most 1 (2) preemptions (switches at blocking points are unbounded); the clock ticks 1 ms per reading; HEAD failing / no Accept-Ranges fall back to a plain GET. Deadlock (a fetch that never returns) is reported by the scheduler
+//verif:bound a resource of 4 distinct bytes in 2 chunks (no hedging possible: it needs two completions and a pending chunk), the first request for each range answered with ANY of: 206 exact, 200 whole body, 206 one byte short, 500, transport failure; and a resource of 6 bytes in 3 chunks with hedging on (multiplier 1.0, at most 1 hedge), first answers exact / transport failure / one byte short and the hedged duplicate answered with one of exact / transport failure / whole body (thorough: ANY one of the five); parallelism 1 or 2; ALL interleavings of the chunk goroutines at synchronisation points (channel, mutex, and a yield while each request is on the wire) with at most 1 (2) preemptions (switches at blocking points are unbounded); the clock ticks 1 ms per reading; HEAD failing / no Accept-Ranges fall back to a plain GET. Deadlock (a fetch that never returns) is reported by the scheduler
 func verifH_C32_parallel_fetch() {
+	verifC32Three = false
+	verifC32Run()
+	verifReach("two-chunk-fetch-returned")
+}
+
+var verifC32Three bool
+
+// Hedged duplicates never change the result.
+//
+//verif:sched quick=0 thorough=1
+//verif:stub (*net/http.Client).Head = verifC32Head
+//verif:stub (*net/http.Client).Get = verifC32Get
+//verif:stub (*net/http.Client).Do = verifC32Do
+//verif:stub net/http.NewRequestWithContext = verifC32NewRequest
+//verif:stub io.ReadAll = verifC32ReadAll
+//verif:stub time.Now = verifC32Now
+//verif:stub time.Since = verifC32Since
+//verif:stub context.WithCancel = verifC32WithCancel
+//verif:bound a resource of 6 bytes in 3 chunks (the smallest shape in which a hedge can be launched: two completions and a pending chunk) with hedging on (multiplier 1.0, at most 1 hedge), parallelism 1 or 2; first answers per range exact / transport failure / one byte short, the hedged duplicate exact / transport failure / whole body (thorough: any of the five); interleavings: every choice among runnable goroutines at blocking points, with 0 (thorough: 1) preemptions
+func verifH_C32_hedging() {
+	verifC32Three = true
+	if verifC32Run() {
+		verifReach("hedged")
+	}
+}
+
+func verifC32Run() (hedged bool) {
 	verifC32Plan, verifC32Seen = map[string]int{}, map[string]int{}
 	verifC32Requests, verifC32Tick, verifC32Simple = 0, 0, 0
 	verifC32HeadFails, verifC32NoRanges = false, false
 	n := 4
-	switch verifChoice("probe", 3) {
-	case 0:
-		// (3-chunk resources multiply the schedules beyond what a run can finish; 2 chunks + hedge = 3 concurrent requests)
-	case 1:
-		verifC32HeadFails = true
-	case 2:
-		verifC32NoRanges = true
+	three := false // a third chunk is what makes hedging possible at all (two completions, one pending)
+	if verifC32Three {
+		n, three = 6, true
+	} else {
+		switch verifChoice("probe", 3) {
+		case 1:
+			verifC32HeadFails = true
+		case 2:
+			verifC32NoRanges = true
+		}
 	}
 	verifC32Resource = []byte("abcdef")[:n]
 	if verifC32HeadFails || verifC32NoRanges {
 		data, err := FetchWithParallelRangeRequests(&http.Client{}, "https://origin/x", &FetchConfig{ParallelThresholdBytes: 1, ChunkSizeBytes: 2, MaxParallelRequests: 2, MaxFetchBytes: 1 << 20})
-		verifReach("fell-back")
 		verifAssert(verifC32Simple == 1 && verifC32Requests == 0 && err == nil && string(data) == string(verifC32Resource), "without range support the resource is fetched with one plain GET")
-		return
+		return false
 	}
 	chunks := (n + 1) / 2
 	allExact := true
@@ -150,14 +179,20 @@ func verifH_C32_parallel_fetch() {
 		if hi >= n {
 			hi = n - 1
 		}
-		k := verifChoice("behaviour", c32Kinds)
+		var k int
+		if three {
+			// with three chunks the first answers are exact / slow-then-exact is the scheduler's business / failing
+			k = []int{c32Exact, c32Transport, c32Short}[verifChoice("behaviour3", 3)]
+		} else {
+			k = verifChoice("behaviour", c32Kinds)
+		}
 		if k != c32Exact {
 			allExact = false
 		}
 		verifC32Plan["bytes="+strconv.Itoa(lo)+"-"+strconv.Itoa(hi)] = k
 	}
 	cfg := &FetchConfig{ParallelThresholdBytes: 1, ChunkSizeBytes: 2, MaxParallelRequests: 1 + verifChoice("parallelism", 2), MaxFetchBytes: 1 << 20}
-	if verifNondetBool("hedging") {
+	if three {
 		cfg.SpeculativeRetryMultiplier, cfg.MaxSpeculativeHedges = 1.0, 1
 		if verifTier() == 1 {
 			verifC32HedgePlan = verifChoice("hedge.behaviour", c32Kinds)
@@ -166,10 +201,14 @@ func verifH_C32_parallel_fetch() {
 		}
 	}
 	data, err := FetchWithParallelRangeRequests(&http.Client{}, "https://origin/x", cfg)
-	verifReach("returned")
 	verifAssert(err != nil || string(data) == string(verifC32Resource), "the fetch returns exactly the bytes of the resource, or an error")
+	for _, c := range verifC32Seen {
+		if c > 1 {
+			hedged = true
+		}
+	}
 	if allExact {
-		verifReach("all-exact")
 		verifAssert(err == nil && string(data) == string(verifC32Resource), "when every first answer is right the resource is returned, whatever the hedged duplicates did")
 	}
+	return hedged
 }
